@@ -112,3 +112,286 @@ Section HostOnBuffer.
 End HostOnBuffer.
 
 Print Assumptions parseHost_buf.
+
+(* ================================================================== *)
+(* the three states                                                     *)
+(* ================================================================== *)
+Section States.
+  Variable idna_raw : str -> str * bool.
+  Variable c : cfg.
+  Hypothesis Hstd : std_cfg c.
+  Variable inp : list rune.
+  Let input : list N := map rv inp.
+  Hypothesis Hinp : Forall scalar (map rv inp).
+  Hypothesis Horacle : oracle_ok idna_raw c.
+  Variable base : option url.
+  Variable sbase : option SU.surl.
+  Variable override : option state.
+
+  Let Hfail := std_fail c Hstd.
+  Let Hspecial := std_special_tab c Hstd.
+  Let Hacc := std_acceptInvalid c Hstd.
+
+  Notation sim_for := (step_sim_for idna_raw c inp base sbase override).
+
+  Lemma is_some_map_h {A B} (f : A -> B) o : is_some (option_map f o) = is_some o.
+  Proof. destruct o; reflexivity. Qed.
+
+  (* the code points of the input are scalar values *)
+  Lemma cp_scalar p : (0 <= p)%Z -> (p < n_inp inp)%Z -> scalar (cp_at inp p).
+  Proof.
+    intros H0 Hn. unfold cp_at. replace (p <? 0)%Z with false by lia.
+    rewrite nth_opt_nth_error.
+    destruct (nth_error inp (Z.to_nat p)) as [x|] eqn:E.
+    - rewrite Forall_forall in Hinp. apply Hinp. apply in_map. exact (nth_error_In _ _ E).
+    - apply nth_error_None in E. unfold n_inp, len in Hn. lia.
+  Qed.
+
+  (* the two ways of reading the code point under the pointer *)
+  Definition reads (p : Z) (eof : bool) (r : N) (cc : option N) : Prop :=
+    (forall x, x <> 65533 -> SB.c_is cc x = (r =? x)) /\
+    SB.c_is_eof cc = eof /\
+    eof = (n_inp inp <=? p)%Z /\
+    (eof = false -> cc = Some r /\ scalar r).
+
+  Lemma reads_eof p : (n_inp inp <= p)%Z -> reads p true rune_error None.
+  Proof.
+    intros H. unfold reads. split; [|split; [reflexivity|split; [lia|discriminate]]].
+    intros x Hx. cbn [SB.c_is]. unfold rune_error. lia.
+  Qed.
+
+  Lemma reads_cp p : (0 <= p)%Z -> (p < n_inp inp)%Z -> reads p false (cp_at inp p) (Some (cp_at inp p)).
+  Proof.
+    intros H0 Hn. unfold reads. split; [|split; [reflexivity|split; [lia|]]].
+    - intros x _. reflexivity.
+    - intros _. split; [reflexivity|apply cp_scalar; assumption].
+  Qed.
+
+  Lemma hostname_override :
+    match override with Some HostnameSt => true | _ => false end =
+    match option_map st_map override with Some s => SB.is_hostname_state s | None => false end.
+  Proof. destruct override as [[]|]; reflexivity. Qed.
+
+  Lemma enc_snoc l r : encode_runes l ++ utf8_enc r = encode_runes (l ++ [r]).
+  Proof. rewrite enc_runes_app. unfold encode_runes at 3. cbn [flat_map]. rewrite app_nil_r. reflexivity. Qed.
+
+  Lemma is_nil_false {A} (l : list A) : is_nil l = false -> l <> [].
+  Proof. intros H E. subst l. discriminate H. Qed.
+
+  Lemma is_nil_true {A} (l : list A) : is_nil l = true -> l = [].
+  Proof. destruct l; [reflexivity|discriminate]. Qed.
+
+  (* ---------------------------------------------------------------- *)
+  (* host state and hostname state                                     *)
+  (* ---------------------------------------------------------------- *)
+  (* the model's branch for the two states, as a function of the state *)
+  Definition host_body (st : state) (p : Z) (eof : bool) (r : N) (buf : str) (atF brF pwF : bool) (u : url)
+    : outcome :=
+    let special (u : url) := IsSpecialScheme c u in
+    let sab (u : url) := isSpecialSchemeAndBackslash c u r in
+    let go_rw st' (u' : url) := Cont (mk st' (p - 1)%Z false buf atF brF pwF u') in
+    if overridden override && str_eqb (u_scheme u) s_file then go_rw FileHost u
+    else if (r =? 58) && negb brF then
+      (if is_nil buf then (fun k => mherr c u HostMissing true k) else (fun k => k u))
+      (fun u =>
+         if match override with Some HostnameSt => true | _ => false end then RetUrl u
+         else match parseHost idna_raw c u buf (negb (special u)) with
+              | Er u e => RetErr u e
+              | Ok u host => Cont (mk PortSt p eof [] atF brF pwF (set_host u (Some host)))
+              end)
+    else if eof || ((r =? 47) || (r =? 63) || (r =? 35) || sab u) then
+      if special u && is_nil buf then mherr c u HostMissing true (go_rw st)
+      else if overridden override && is_nil buf &&
+              (negb (is_nil (u_username u)) || negb (is_nil (u_password u)) || is_some (u_port u))
+      then RetUrl u
+      else match parseHost idna_raw c u buf (negb (special u)) with
+           | Er u e => RetErr u e
+           | Ok u host =>
+               let u := set_host u (Some host) in
+               if overridden override then RetUrl u
+               else Cont (mk PathStart (p - 1)%Z false [] atF brF pwF u)
+           end
+    else
+      let brF' := if r =? 91 then true else if r =? 93 then false else brF in
+      let bytes :=
+        match rune_at inp p with
+        | Some (Bad b) => if c_acceptInvalid c then [b] else utf8_enc r
+        | _ => utf8_enc r
+        end in
+      Cont (mk st p eof (buf ++ bytes) atF brF' pwF u).
+
+  Lemma step_host mm : m_state mm = HostSt \/ m_state mm = HostnameSt ->
+    step idna_raw c inp base override mm =
+    host_body (m_state mm) (m_ptr mm + 1)%Z
+      (if (n_inp inp <=? m_ptr mm + 1)%Z then true else m_eof mm)
+      (if (n_inp inp <=? m_ptr mm + 1)%Z then rune_error else cp_at inp (m_ptr mm + 1)%Z)
+      (m_buf mm) (m_at mm) (m_br mm) (m_pw mm) (m_url mm).
+  Proof. intros [H|H]; unfold step; rewrite H; reflexivity. Qed.
+
+  Lemma st_rel_host ov st ptr buf mu sm : st = HostSt \/ st = HostnameSt ->
+    (st_rel ov sbase st ptr buf mu sm <->
+     buf = encode_runes (SB.m_buffer sm) /\ Forall scalar (SB.m_buffer sm) /\ R mu (SB.m_url sm) /\
+     list_path (SB.m_url sm)).
+  Proof. intros [-> | ->]; reflexivity. Qed.
+
+  Theorem sim_host : sim_for (fun st => st = HostSt \/ st = HostnameSt).
+  Proof.
+    intros mm sm Hst0 [Hs Hp He Hlo Hhi Hfl Hb].
+    apply (st_rel_host _ _ _ _ _ _ Hst0) in Hb. destruct Hb as [Hbuf [Hsc [HR Hlp]]].
+    destruct Hfl as [Hat [Hbr Hpw]].
+    assert (Esp : sstep idna_raw c inp sbase override sm =
+                  SB.host_state (dta idna_raw c) (option_map st_map override) sm
+                    (SB.c_of (SB.substring_from (map rv inp) (SB.m_pointer sm)))).
+    { unfold sstep, SB.step. rewrite <- Hs. destruct Hst0 as [E|E]; rewrite E; reflexivity. }
+    unfold mstep. rewrite (step_host mm Hst0), Esp. rewrite He, Hp.
+    set (p := (m_ptr mm + 1)%Z).
+    assert (core : forall eof r cc, reads p eof r cc ->
+      out_rel inp (is_some override) sbase
+        (host_body (m_state mm) p eof r (m_buf mm) (m_at mm) (m_br mm) (m_pw mm) (m_url mm))
+        (SB.host_state (dta idna_raw c) (option_map st_map override) sm cc)).
+    { intros eof r cc [H1 [H2 [H3 H4]]].
+      unfold host_body, SB.host_state, SB.override_given, overridden. cbv zeta. rewrite is_some_map_h.
+      rewrite (R_scheme_file _ _ HR).
+      destruct (is_some override && SU.cps_eqb (SU.u_scheme (SB.m_url sm)) SU.sc_file) eqn:E1.
+      { (* 1: to the file host state *)
+        cbn [out_rel].
+        constructor; unfold mk; cbn [m_state m_ptr m_eof m_buf m_at m_br m_pw m_url st_map st_rel].
+        - destruct sm; reflexivity.
+        - destruct sm; cbn [SB.m_pointer SB.set_state SB.decrease_pointer SB.set_pointer] in *. lia.
+        - lia.
+        - rewrite points_to_eof_spec. lia.
+        - destruct sm; exact (conj Hat (conj Hbr Hpw)).
+        - destruct sm; exact (conj Hbuf (conj Hsc (conj HR Hlp))).
+        - discriminate. }
+      rewrite (H1 58) by discriminate. rewrite <- Hbr.
+      destruct ((r =? 58) && negb (m_br mm)) eqn:E2.
+      { (* 2: a colon outside brackets *)
+        rewrite <- (is_nil_enc (SB.m_buffer sm)), <- Hbuf.
+        destruct (is_nil (m_buf mm)) eqn:En.
+        { destruct (mherr_fatal c (m_url mm) HostMissing
+            (fun u => if match override with Some HostnameSt => true | _ => false end then RetUrl u
+                      else match parseHost idna_raw c u (m_buf mm) (negb (IsSpecialScheme c u)) with
+                           | Er u0 e => RetErr u0 e
+                           | Ok u0 host => Cont (mk PortSt p eof [] (m_at mm) (m_br mm) (m_pw mm)
+                                                   (set_host u0 (Some host)))
+                           end)) as [e ->].
+          cbn [out_rel]. apply R_noted. exact HR. }
+        cbv beta. rewrite hostname_override.
+        destruct (match option_map st_map override with Some s => SB.is_hostname_state s | None => false end).
+        { cbn [out_rel]. exact HR. }
+        assert (Hne : SB.m_buffer sm <> []).
+        { apply is_nil_false. rewrite <- is_nil_enc, <- Hbuf. exact En. }
+        pose proof (parseHost_buf idna_raw c Hstd Horacle (m_url mm) (SB.m_buffer sm)
+                      (negb (IsSpecialScheme c (m_url mm))) Hsc (fun _ => Hne)) as Hph.
+        rewrite <- Hbuf in Hph. rewrite (R_special c _ _ Hspecial HR) in Hph |- *.
+        destruct (parseHost idna_raw c (m_url mm) (m_buf mm) (negb (SU.url_is_special (SB.m_url sm))))
+          as [u' h|u' e].
+        - destruct Hph as (hs & v & Ehp & -> & ->). rewrite Ehp. cbn [out_rel].
+          constructor; unfold mk; cbn [m_state m_ptr m_eof m_buf m_at m_br m_pw m_url st_map st_rel].
+          + destruct sm; reflexivity.
+          + destruct sm; exact Hp.
+          + lia.
+          + rewrite points_to_eof_spec. lia.
+          + destruct sm; exact (conj Hat (conj Hbr Hpw)).
+          + destruct sm as [su sst sbuf sa sbr spw sp].
+            cbn [SB.m_url SB.m_buffer SB.set_url SB.set_buffer SB.set_state] in *.
+            split; [reflexivity|]. split; [reflexivity|]. split.
+            * apply (R_set_host _ _ (Some hs)). apply R_set_verrs. exact HR.
+            * intros _. exact Hlp.
+          + intros _. destruct sm as [su sst sbuf sa sbr spw sp].
+            cbn [SB.m_url SB.m_buffer SB.set_url SB.set_buffer SB.set_state] in *.
+            apply (R_set_host _ _ (Some hs)). apply R_set_verrs. exact HR.
+        - destruct Hph as [Ehp [v ->]]. rewrite Ehp. cbn [out_rel]. apply R_set_verrs. exact HR. }
+      (* 3: the end of the authority *)
+      unfold SB.ends_authority, SB.special, isSpecialSchemeAndBackslash.
+      rewrite H2, (H1 47), (H1 63), (H1 35), (H1 92) by discriminate.
+      rewrite !(R_special c _ _ Hspecial HR).
+      replace (eof || ((r =? 47) || (r =? 63) || (r =? 35) || SU.url_is_special (SB.m_url sm) && (r =? 92)))
+        with (eof || (r =? 47) || (r =? 63) || (r =? 35) || SU.url_is_special (SB.m_url sm) && (r =? 92))
+        by (destruct eof, (r =? 47), (r =? 63), (r =? 35); reflexivity).
+      destruct (eof || (r =? 47) || (r =? 63) || (r =? 35) || SU.url_is_special (SB.m_url sm) && (r =? 92)) eqn:ET.
+      { rewrite <- (is_nil_enc (SB.m_buffer sm)), <- Hbuf.
+        destruct (SU.url_is_special (SB.m_url sm) && is_nil (m_buf mm)) eqn:E3.
+        { destruct (mherr_fatal c (m_url mm) HostMissing
+            (fun u' => Cont (mk (m_state mm) (p - 1)%Z false (m_buf mm) (m_at mm) (m_br mm) (m_pw mm) u')))
+            as [e ->].
+          cbn [out_rel]. destruct sm. apply R_noted. exact HR. }
+        rewrite (RU.R_includes_credentials _ _ HR), (R_port_some _ _ HR).
+        replace (SU.u_port (SB.m_url (SB.decrease_pointer sm 1))) with (SU.u_port (SB.m_url sm))
+          by (destruct sm; reflexivity).
+        destruct (is_some override && is_nil (m_buf mm) &&
+                  (SU.includes_credentials (SB.m_url sm) || is_some (SU.u_port (SB.m_url sm)))) eqn:E4.
+        { cbn [out_rel]. exact HR. }
+        assert (Hne : negb (SU.url_is_special (SB.m_url sm)) = false -> SB.m_buffer sm <> []).
+        { intros Hs'. apply is_nil_false. rewrite <- is_nil_enc, <- Hbuf.
+          destruct (SU.url_is_special (SB.m_url sm)); [|discriminate Hs'].
+          destruct (is_nil (m_buf mm)); [discriminate E3|reflexivity]. }
+        pose proof (parseHost_buf idna_raw c Hstd Horacle (m_url mm) (SB.m_buffer sm)
+                      (negb (SU.url_is_special (SB.m_url sm))) Hsc Hne) as Hph.
+        rewrite <- Hbuf in Hph.
+        destruct (parseHost idna_raw c (m_url mm) (m_buf mm) (negb (SU.url_is_special (SB.m_url sm))))
+          as [u' h|u' e].
+        - destruct Hph as (hs & v & Ehp & -> & ->). rewrite Ehp.
+          assert (HR' : R (set_host (set_verrs (m_url mm) v) (Some (host_bytes hs)))
+                          (SU.with_host (SB.m_url sm) (Some hs))).
+          { apply (R_set_host _ _ (Some hs)). apply R_set_verrs. exact HR. }
+          destruct (is_some override) eqn:Eov.
+          + cbn [out_rel]. destruct sm as [su sst sbuf sa sbr spw sp].
+            cbn [SB.m_url SB.m_buffer SB.set_url SB.set_buffer SB.set_state SB.decrease_pointer SB.set_pointer] in *.
+            exact HR'.
+          + cbn [out_rel].
+            constructor; unfold mk; cbn [m_state m_ptr m_eof m_buf m_at m_br m_pw m_url st_map st_rel].
+            * destruct sm; reflexivity.
+            * destruct sm; cbn [SB.m_pointer SB.set_state SB.decrease_pointer SB.set_pointer SB.set_url SB.set_buffer] in *. lia.
+            * lia.
+            * rewrite points_to_eof_spec. lia.
+            * destruct sm; exact (conj Hat (conj Hbr Hpw)).
+            * destruct sm as [su sst sbuf sa sbr spw sp].
+              cbn [SB.m_url SB.m_buffer SB.set_url SB.set_buffer SB.set_state SB.decrease_pointer SB.set_pointer] in *.
+              split; [reflexivity|]. split; [reflexivity|]. split; [exact HR'|exact Hlp].
+            * discriminate.
+        - destruct Hph as [Ehp [v ->]]. rewrite Ehp. cbn [out_rel]. apply R_set_verrs. exact HR. }
+      (* 4: one more code point *)
+      assert (Eeof : eof = false) by (destruct eof; [discriminate ET|reflexivity]).
+      destruct (H4 Eeof) as [-> Hr].
+      assert (Ebytes : match rune_at inp p with
+                       | Some (Bad b) => if c_acceptInvalid c then [b] else utf8_enc r
+                       | _ => utf8_enc r
+                       end = utf8_enc r).
+      { rewrite Hacc. destruct (rune_at inp p) as [[g|b]|]; reflexivity. }
+      rewrite Ebytes, Eeof.
+      assert (G : forall br sm', SB.m_insideBrackets sm' = br ->
+                  SB.m_url sm' = SB.m_url sm -> SB.m_state sm' = SB.m_state sm -> SB.m_buffer sm' = SB.m_buffer sm ->
+                  SB.m_atSignSeen sm' = SB.m_atSignSeen sm -> SB.m_passwordTokenSeen sm' = SB.m_passwordTokenSeen sm ->
+                  SB.m_pointer sm' = SB.m_pointer sm ->
+        out_rel inp (is_some override) sbase
+          (Cont (mk (m_state mm) p false (m_buf mm ++ utf8_enc r) (m_at mm) br (m_pw mm) (m_url mm)))
+          (SB.SCont (SB.append_to_buffer sm' r))).
+      { intros br sm' Gbr Gu Gst Gb Ga Gpw Gp. cbn [out_rel].
+        destruct sm' as [su' sst' sbuf' sa' sbr' spw' sp'].
+        cbn [SB.m_url SB.m_buffer SB.m_state SB.m_atSignSeen SB.m_insideBrackets SB.m_passwordTokenSeen SB.m_pointer] in *.
+        subst su' sst' sbuf' sa' sbr' spw' sp'.
+        constructor; unfold mk; cbn [m_state m_ptr m_eof m_buf m_at m_br m_pw m_url].
+        - exact Hs.
+        - exact Hp.
+        - lia.
+        - rewrite points_to_eof_spec. lia.
+        - exact (conj Hat (conj eq_refl Hpw)).
+        - apply (st_rel_host _ _ _ _ _ _ Hst0).
+          cbn [SB.m_url SB.m_buffer SB.append_to_buffer SB.set_buffer].
+          split; [rewrite Hbuf; apply enc_snoc|]. split.
+          + apply Forall_app. split; [exact Hsc|]. constructor; [exact Hr|constructor].
+          + split; [exact HR|exact Hlp].
+        - discriminate. }
+      destruct (r =? 91) eqn:E91; destruct (r =? 93) eqn:E93.
+      - exfalso. lia.
+      - apply G; destruct sm; reflexivity.
+      - apply G; destruct sm; reflexivity.
+      - apply G; try reflexivity. symmetry. exact Hbr. }
+    destruct (n_inp inp <=? p)%Z eqn:En.
+    - unfold input. rewrite here_eof by lia. cbn [SB.c_of hd_error]. apply core. apply reads_eof. lia.
+    - unfold input. rewrite (here_cons inp p) by lia. cbn [SB.c_of hd_error]. apply core. apply reads_cp; lia.
+  Qed.
+End States.
+
+Print Assumptions sim_host.
